@@ -18,6 +18,7 @@ import (
 	"sort"
 	"strings"
 	"sync"
+	"sync/atomic"
 	"syscall"
 	"time"
 
@@ -30,8 +31,6 @@ import (
 	"github.com/tochemey/goakt/v4/internal/internalpb"
 	"github.com/tochemey/goakt/v4/internal/remoteclient"
 	"github.com/tochemey/goakt/v4/internal/verifhook"
-	"github.com/tochemey/goakt/v4/log"
-	"github.com/tochemey/goakt/v4/remote"
 	"github.com/tochemey/goakt/v4/verifharness/sched"
 	"github.com/tochemey/goakt/v4/verifharness/vtrace"
 )
@@ -92,6 +91,10 @@ type rworld struct {
 
 var rworlds sync.Map // departed peers address -> *rworld
 
+var peersPortSeq atomic.Int64
+
+func init() { peersPortSeq.Store(20000) }
+
 type relocHook struct{}
 
 func (relocHook) At(point string, obj any, a, b int64) {
@@ -149,20 +152,17 @@ func newRWorld(id int, survivors, departed []string, sc rscript) *rworld {
 		w.down[d] = true
 	}
 	names := append(append([]string{}, survivors...), departed...)
-	ports := freePorts(2 * len(names))
+	// remoting ports are bound (free ports); peers ports are only identities (never bound): a process-wide counter keeps
+	// the peers addresses of concurrently running worlds distinct (the hook handler finds the world by that address)
 	var dns []*discovery.Node
-	for i, n := range names {
-		dns = append(dns, &discovery.Node{Name: n, Host: "127.0.0.1", PeersPort: ports[2*i+1], RemotingPort: ports[2*i]})
+	var systems []actor.ActorSystem
+	for _, n := range names {
+		sys, port := startSystem(fmt.Sprintf("r%d", id))
+		systems = append(systems, sys)
+		dns = append(dns, &discovery.Node{Name: n, Host: "127.0.0.1", PeersPort: int(peersPortSeq.Add(1)), RemotingPort: port})
 	}
 	for i, name := range names {
-		sys, err := actor.NewActorSystem(fmt.Sprintf("r%d", id), actor.WithLogger(log.DiscardLogger),
-			actor.WithRemote(remote.NewConfig("127.0.0.1", ports[2*i])))
-		if err != nil {
-			fatal(err)
-		}
-		if err := sys.Start(ctx); err != nil {
-			fatal("start:", err)
-		}
+		sys := systems[i]
 		n := &rnode{name: name, sys: sys, dn: dns[i], cli: &fakeClient{nodes: dns, leader: names[0]}}
 		n.cl = cluster.NewVerif(sys.Name(), dns[i], &kvDMap{st: w.st, node: name}, n.cli)
 		if err := actor.VerifJoinCluster(ctx, sys, n.cl, dns[i], nil); err != nil {
@@ -171,7 +171,7 @@ func newRWorld(id int, survivors, departed []string, sc rscript) *rworld {
 		_ = sys.Register(ctx, &goodActor{})
 		w.nodes[name] = n
 		w.byPeer[dns[i].PeersAddress()] = name
-		w.byHost[address.FormatHostPort("127.0.0.1", ports[2*i])] = name
+		w.byHost[address.FormatHostPort("127.0.0.1", dns[i].RemotingPort)] = name
 	}
 	bad := map[string]bool{}
 	for _, b := range sc.Bad {
@@ -227,10 +227,11 @@ func newRWorld(id int, survivors, departed []string, sc rscript) *rworld {
 	return w
 }
 
-// stop tears the world down.  A leader that took the crash-recovery path (a NodeLeft that found no snapshot starts
-// gateCrashRecovery on a goroutine that keeps retrying for seconds) is left running until the process exits: detaching
-// its cluster engine under that goroutine would be an artefact of the harness, not of goakt.
-func (w *rworld) stop(survivors []string, keepLeader bool) {
+// stop tears the world down.  A world whose leader took the crash-recovery path (a NodeLeft that found no snapshot
+// starts gateCrashRecovery on a goroutine that keeps retrying for seconds) or in which anything but exactly one
+// relocation per departed node happened (possible only on a broken goakt) is left running until the process exits:
+// detaching the cluster engines under goroutines that still relocate would be an artefact of the harness, not of goakt.
+func (w *rworld) stop(survivors []string, keepAll bool) {
 	for k, g := range w.gates {
 		if w.parked[k] {
 			close(g)
@@ -243,8 +244,8 @@ func (w *rworld) stop(survivors []string, keepLeader bool) {
 	}
 	ctx, cancel := context.WithTimeout(context.Background(), 20*time.Second)
 	defer cancel()
-	for i, s := range survivors {
-		if i == 0 && keepLeader {
+	for _, s := range survivors {
+		if keepAll {
 			continue
 		}
 		n := w.nodes[s]
@@ -412,17 +413,30 @@ func runReloc(id int, sc rscript) []map[string]any {
 			emit(map[string]any{"op": "Finish", "a": st.A, "i": st.I})
 		}
 	}
-	// let everything settle, then look at the outcome
-	for k := range w.gates {
-		p := strings.SplitN(k, "|", 2)
-		w.release(p[0], p[1])
+	// let everything settle (open every gate a worker may still reach), then look at the outcome
+	deadline := time.Now().Add(40 * time.Second)
+	for quiet := 0; quiet < 3 && time.Now().Before(deadline); {
+		w.mu.Lock()
+		var open []string
+		for k := range w.gates {
+			if w.parked[k] {
+				open = append(open, k)
+			}
+		}
+		w.mu.Unlock()
+		for _, k := range open {
+			p := strings.SplitN(k, "|", 2)
+			w.release(p[0], p[1])
+		}
+		if len(open) == 0 && len(actor.VerifRelocationJobs(leader.sys)) == 0 {
+			quiet++
+		} else {
+			quiet = 0
+		}
+		time.Sleep(40 * time.Millisecond)
 	}
-	deadline := time.Now().Add(30 * time.Second)
-	for len(actor.VerifRelocationJobs(leader.sys)) > 0 && time.Now().Before(deadline) {
-		time.Sleep(5 * time.Millisecond)
-	}
-	time.Sleep(100 * time.Millisecond)
-	if len(actor.VerifRelocationJobs(leader.sys)) > 0 && drift == "" {
+	unsettled := len(actor.VerifRelocationJobs(leader.sys)) > 0
+	if unsettled && drift == "" {
 		drift = "relocation still in flight at the end"
 	}
 	for msg := range sub.Iterator() {
@@ -468,7 +482,16 @@ func runReloc(id int, sc rscript) []map[string]any {
 		}
 	}
 	emit(map[string]any{"op": "End", "id": id, "drift": drift})
-	w.stop(survivors, crashPath)
+	abnormal := crashPath || unsettled
+	w.mu.Lock()
+	for _, d := range departed {
+		pa := peerAddr(d)
+		if w.count("reloc.worker.spawn", pa) > 1 || w.count("reloc.worker.run", pa) > 1 || w.count("reloc.end", pa) > 1 || w.count("reloc.abort", pa) > 0 {
+			abnormal = true
+		}
+	}
+	w.mu.Unlock()
+	w.stop(survivors, abnormal)
 	return out
 }
 
